@@ -69,8 +69,15 @@ def gen_fuzz(rng, alphabet, n):
             ops.append("state_label %s %d" % (hx(rng.choice(OPTS)), rng.choice([0, 1, 2, -1, 99])))
         elif r < 0.985:
             ops.append("sim %s" % hx(rng.choice(["abc", "{BackSpace}", "{Shift+a}{Return}", "a{", "{}", "{Control+Delete}", "ni hao{space}"])))
-        else:
+        elif r < 0.997:
             ops.append(rng.choice(["rawid 0", "rawid 1", "rawid 3735928559", "rawid 18446744073709551615", "use 0"]))
+        else:
+            # the staleness sweep: further sessions exist, the clock (supplied by the harness) passes the life span with or
+            # without a call on the current one in between, the sweep erases while it walks the session map, then calls go on
+            # with the current id (swept or not) and with a new session (its id may be the address of a swept one)
+            ops += ["new", "new", "use 0", "advance %d" % rng.choice([0, 299, 301, 100000])] + \
+                   (["key 97 0"] if rng.random() < 0.5 else []) + ["advance %d" % rng.choice([0, 1, 300, 301]), "cleanup", "context",
+                                                                  "key 97 0", "status", "new", "key 97 0", "context", "cleanup", "use 0"]
     return ops
 
 
@@ -97,7 +104,13 @@ CJ_ROWS = [("日", "a", 9), ("月", "b", 8), ("明", "ab", 7), ("金", "c", 6), 
            ("你", "onf", 1), ("好", "vnd", 1), ("嗎", "rsqf", 1), ("啊", "rnlr", 1), ("中", "l", 1), ("國", "wirm", 1), ("安", "jv", 1), ("西", "mcw", 1)]
 
 
-def make_full_workspace(d, user_dict=True, second_prism=False, fix_order=True):
+# an extension pack of the pinyin dictionary (`translator/packs`): its table is a second Table object of the dictionary, shared
+# between the sessions through the dictionary component like the primary one; the entries rank first so that they show on the
+# first page
+PACK_ROWS = [("妳", "ni", 900), ("蚝", "hao", 800), ("妳好", "ni hao", 700), ("碼", "ma", 600), ("錒", "a", 500)]
+
+
+def make_full_workspace(d, user_dict=True, second_prism=False, fix_order=True, packs=False):
     """a stock-like workspace: luna_pinyin's schema structure (all stock components) over tiny dictionaries"""
     shutil.rmtree(d, ignore_errors=True)
     os.makedirs(d)
@@ -120,6 +133,12 @@ def make_full_workspace(d, user_dict=True, second_prism=False, fix_order=True):
     if not user_dict:   # learning disabled (C16)
         s = s.replace("translator:\n  dictionary: vs_pin", "translator:\n  dictionary: vs_pin\n  enable_user_dict: false")
         s = s.replace("  dictionary: vs_cj\n  prefix: 'C:'", "  dictionary: vs_cj\n  enable_user_dict: false\n  prefix: 'C:'")
+    if packs:
+        assert "translator:\n  dictionary: vs_pin" in s
+        s = s.replace("translator:\n  dictionary: vs_pin", "translator:\n  dictionary: vs_pin\n  packs:\n    - vs_pin_extra", 1)
+        with open(os.path.join(d, "vs_pin_extra.dict.yaml"), "w", encoding="utf-8") as f:
+            f.write("---\nname: vs_pin_extra\nversion: '1'\nsort: by_weight\nuse_preset_vocabulary: false\n...\n\n" +
+                    "".join("%s\t%s\t%d\n" % r for r in PACK_ROWS))
     open(os.path.join(d, "vs_full.schema.yaml"), "w", encoding="utf-8").write(s)
     if second_prism:
         # a second schema on the SAME dictionary with its own prism (no abbreviations in its spelling algebra): the
